@@ -138,8 +138,10 @@ class WrapFS(FS, typing.Generic[_F]):
         with unwrap_errors(path):
             raw_info = _fs.getinfo(_path, namespaces=namespaces).raw
         if abspath(normpath(path)) == "/":
+            # copy what is changed: the delegate may hand out (and keep) the
+            # very dictionaries of its own Info objects
             raw_info = dict(raw_info)
-            raw_info["basic"]["name"] = ""  # type: ignore
+            raw_info["basic"] = dict(raw_info["basic"], name="")  # type: ignore
         return Info(raw_info)
 
     def listdir(self, path):
